@@ -12,7 +12,7 @@ pub enum Node {
     Link(String),
 }
 
-const NAMES: &[&str] = &["a.txt", "b", "sub", "d", ".hidden", "with space", "\u{e9}\u{4e2d}.bin", "x.py", "deep", "z"];
+const NAMES: &[&str] = &["a.txt", "b", "sub", "d", ".hidden", "with space", "\u{e9}\u{4e2d}.bin", "x.py", "deep", "z", "back\\slash", "sub\\a.txt", "q\"uote", "tab\tname", "star*", "br[ack]et"];
 
 struct TreeGen<'a> {
     r: &'a mut Rng,
